@@ -86,6 +86,7 @@ type Exec struct {
 	steps      int
 	maxSteps   int
 	closed     map[uintptr]bool
+	closedKeep []reflect.Value
 	res        *Result
 	trace      bool
 	monitor    func()
@@ -858,6 +859,10 @@ func Close(ch interface{}) {
 	if x != nil && x.cur != nil {
 		Point(&Op{Kind: "close"})
 		x.closed[p] = true
+		// the map is keyed by the channel's address: keep the closed channel reachable for the rest of
+		// the execution, otherwise the collector may hand its address to a channel made later, which
+		// would then be taken for closed
+		x.closedKeep = append(x.closedKeep, v)
 	}
 	v.Close()
 }
